@@ -108,6 +108,8 @@ def verify_function(reg, contract, prefix=""):
             if v.k == "ref":
                 ctx.param_refs.append(v.z)
                 ctx.facts.append(v.z > 0)
+            if v.k == "str" and pn in contract.str_domains:
+                ctx.str_domains[v.z.get_id()] = list(contract.str_domains[pn])
         fr = _new_frame(uid, fsrc.module, body, st.env, fsrc.loops, contract.invariants, None, fsrc.cls)
         fr.contract = contract
         fr.ghost_globals = contract.sidecar_globals
@@ -144,6 +146,12 @@ def verify_function(reg, contract, prefix=""):
         res.returns = len(outs)
         raise_conds = {}
         for (name, cls, cond) in contract.raises:
+            if name.startswith("@"):
+                pv = entry.env.get(name[1:])
+                if pv is not None and pv.k == "conc" and isinstance(pv.z, type):
+                    cls = pv.z
+                else:
+                    cls = ParamExc(name[1:])
             raise_conds[cls] = (name, cond)
         # --- normal exits
         for (o, v) in outs:
@@ -167,9 +175,14 @@ def verify_function(reg, contract, prefix=""):
         # --- exceptional exits
         allowed = tuple(raise_conds)
         for (est, cls, node) in ctx.exc_stack[0]:
-            res.raises.append(cls.__name__)
+            res.raises.append(getattr(cls, "__name__", str(cls)))
             match = None
             for a in allowed:
+                if isinstance(a, ParamExc) or isinstance(cls, ParamExc):
+                    if isinstance(a, ParamExc) and isinstance(cls, ParamExc) and a.name == cls.name:
+                        match = a
+                        break
+                    continue
                 if issubclass(cls, a):
                     match = a
                     break
@@ -186,6 +199,20 @@ def verify_function(reg, contract, prefix=""):
     res.used_lemmas = ctx.used_lemmas
     res.lemma_deps = ctx.lemma_deps
     return res
+
+
+class ParamExc(object):
+    """The exception class passed in as a parameter (generic assert_* helpers)."""
+
+    def __init__(self, name):
+        self.name = name
+        self.__name__ = "@" + name
+
+    def __hash__(self):
+        return hash(self.name)
+
+    def __eq__(self, o):
+        return isinstance(o, ParamExc) and o.name == self.name
 
 
 def entry_with_pc(entry, o):
